@@ -176,6 +176,9 @@ pub enum IdRef {
   /// does not commit to the witness, so an envelope can name itself, a later
   /// or an earlier inscription of its own transaction
   Own(u32),
+  /// k-th inscription (modulo) that sits on an output this transaction spends,
+  /// i.e. one the reveal really carries; `Known(k)` when there is none
+  Carried(u32),
   #[serde(with = "hexbytes")]
   RawBytes(Vec<u8>),
 }
